@@ -1213,6 +1213,31 @@ def _opG():
     return scope.mk_graph(3, [(1, 2), (2, 3)])
 
 
+def _opU():
+    """A bipartite graph of the user's own class (BaseBipartiteGraph is the
+    documented argument type of the edge groups) whose neighbour lists are in
+    insertion order, not sorted."""
+    from cnfgen.graphs import BaseBipartiteGraph
+
+    class UserBipartite(BaseBipartiteGraph):
+        def __init__(self):
+            BaseBipartiteGraph.__init__(self, 3, 3, 'a graph class of the user')
+            self.adj = {1: [3, 1], 2: [2], 3: [3, 2, 1]}
+
+        def right_neighbors(self, u):
+            return list(self.adj[u])
+
+        def left_neighbors(self, v):
+            return [u for u in (3, 1, 2) if v in self.adj[u]]
+
+        def has_edge(self, u, v):
+            return v in self.adj.get(u, [])
+
+        def number_of_edges(self):
+            return 6
+    return UserBipartite()
+
+
 def _opD():
     return scope.mk_digraph(3, [(1, 2), (1, 3), (2, 3)])
 
@@ -1237,6 +1262,8 @@ GROUP_OPS = {
     'new_mapping(2,2)': (lambda F: F.new_mapping(2, 2), 4),
     'new_mapping(0,3)': (lambda F: F.new_mapping(0, 3), 0),
     'new_sparse_mapping(B)': (lambda F: F.new_sparse_mapping(_opB()), 3),
+    'new_sparse_mapping(U)': (lambda F: F.new_sparse_mapping(_opU()), 6),
+    'new_bipartite_edges(U)': (lambda F: F.new_bipartite_edges(_opU()), 6),
     'new_binary_mapping(2,3)': (lambda F: F.new_binary_mapping(2, 3), 4),
     'new_binary_mapping(3,1)': (lambda F: F.new_binary_mapping(3, 1), 0),
     'new_graph_edges(G)': (lambda F: F.new_graph_edges(_opG()), 2),
@@ -1244,7 +1271,7 @@ GROUP_OPS = {
     'new_digraph_edges(D,pred)': (lambda F: F.new_digraph_edges(_opD()), 3),
     'new_digraph_edges(D,succ)': (lambda F: F.new_digraph_edges(_opD(), sortby='succ'), 3),
 }
-MAPPING_OPS = ('new_mapping(2,2)', 'new_mapping(0,3)', 'new_sparse_mapping(B)',
+MAPPING_OPS = ('new_mapping(2,2)', 'new_mapping(0,3)', 'new_sparse_mapping(B)', 'new_sparse_mapping(U)',
                'new_binary_mapping(2,3)', 'new_binary_mapping(3,1)')
 
 
@@ -1314,7 +1341,8 @@ ALPHABETS['ext'] = ALPHABETS['full'] + [
     'new_bipartite_edges(B)', 'new_digraph_edges(D,pred)', 'new_digraph_edges(D,succ)',
     'update_variable_number(nv-1)', 'cardinality_leq((nv+1,nv+2,nv+3),1)',
     'cardinality_geq(generator(nv+2,1..),1)', 'cardinality_neq(generator(nv+1),0)',
-    'add_clause((nv+1,-(nv+2)))', 'add_parity((nv+1,),0)']
+    'add_clause((nv+1,-(nv+2)))', 'add_parity((nv+1,),0)',
+    'new_sparse_mapping(U)', 'new_bipartite_edges(U)']
 
 
 class St:
